@@ -85,6 +85,17 @@ def cases(tier, seed):
                                                 if plane > 0:
                                                     c["seed"] = int(seed)
                                             out.append(c)
+    # ---- caller-supplied method callable (composite midpoint rule): inherited by the backward integral
+    for n in (3, 7):
+        for nb in (None, NB_QUICK[n]):
+            for fl in ("num", "tg", "inf"):
+                for fu in ("num", "tg", "inf"):
+                    infinite = "inf" in (fl, fu)
+                    for fam in (INF_FAMILIES if infinite else FIN_FAMILIES):
+                        for kind in (("pure", "nn") if tier == "quick" else KINDS):
+                            for order, loss in ((1, "lin"), (2, "lin"), (2, "sq")):
+                                out.append({"family": fam, "n": n, "nb": nb, "xl_form": fl, "xu_form": fu, "kind": kind,
+                                            "extra": False, "order": order, "loss": loss, "methc": 1})
     # ---- limits-only plane: no parameter of the integrand is differentiable (frozen / plain tensors), only the
     # limits are; every combination of limit forms with at least one tensor limit that requires grad
     for n in ([3, 7] if tier == "quick" else [1, 2, 3, 7, 33]):
@@ -404,6 +415,17 @@ def _run_limits_only(cfg):
     return {"viol": viol, "obs": obs, "status": "violation" if viol else "ok", "n": nexec}
 
 
+def _midpoint(fcn, xl, xu, params, n, **unused):
+    """a caller-supplied quadrature method (composite midpoint rule with n panels): the backward integral inherits
+    it - and its option n unless bck_options says otherwise - like a built-in method"""
+    h = (xu - xl) / n
+    res = None
+    for i in range(n):
+        v = fcn(xl + (i + 0.5) * h, *params) * h
+        res = v if res is None else res + v
+    return res
+
+
 def run_case(cfg):
     from xitorch.integrate import quad
     if cfg.get("pgrad") == 0:
@@ -445,7 +467,8 @@ def run_case(cfg):
     ends = {xlv, xuv}
 
     # ---- the rule the statement prescribes for the backward integral, from quad's own forward pass
-    ex = qc.extract_rule(quad, float(xlv), float(xuv), n_b, "float64", ends)
+    ex = qc.extract_rule(quad, float(xlv), float(xuv), n_b, "float64", ends,
+                         extra_opts=({"method": _midpoint} if cfg.get("methc") else None))
     nexec += 1
     if ex.exc is not None or len(ex.nodes) != n_b:
         # the forward rule itself is C12's business; without it nothing can be judged here
@@ -455,7 +478,7 @@ def run_case(cfg):
     X, W = ex.nodes, ex.weights
 
     # ---- forward
-    opts = {"method": "leggauss", "n": n}
+    opts = {"method": (_midpoint if cfg.get("methc") else "leggauss"), "n": n}
     if nb is not None:
         opts["bck_options"] = {"n": nb}
     o = call(quad, fcn, xl, xu, params=params, **opts)
